@@ -114,6 +114,9 @@ type Case struct {
 	FaultContext   string   `json:"fault_context,omitempty"`
 	RelaxedFault   string   `json:"relaxed_fault,omitempty"` // "eof" | "eio": env-injected fault, conditional oracle
 	MaskClockLines bool     `json:"mask_clock_lines,omitempty"`
+	// AllFresh: every run in an OS process of its own (set by the crash triage: the case
+	// killed a worker, so whether it kills the interpreter is settled as in execFresh)
+	AllFresh bool `json:"all_fresh,omitempty"`
 
 	// not serialised: how to rebuild this case from a vector of draws (minimisation)
 	draws []int
@@ -485,7 +488,7 @@ func (c *EvalCtx) RunAll(cs *Case) []Obs {
 	c.Results = c.Results[:0]
 	for i, r := range cs.Runs {
 		var res sim.Result
-		if strings.HasPrefix(r.Role, "fresh-process") {
+		if cs.AllFresh || strings.HasPrefix(r.Role, "fresh-process") {
 			res = execFresh(cs.Prop, r.Cfg)
 		} else {
 			res = Exec(r.Cfg)
